@@ -223,6 +223,36 @@ fn check(argc: usize, envc: usize, pattern: usize, size: u64, layout: usize) -> 
 
 fn gen(maxc: usize) -> impl Fn(&mut EnumCtx) + Sync {
     move |e: &mut EnumCtx| {
+        // stacks larger than the gaps between the image, the strings and the first candidates:
+        // every candidate start below the image swallows something and must be skipped
+        for size in [0x10_0000u64, 0x3F_F000, 0x40_0000] {
+            for argc in 0..3usize {
+                for envc in 0..3usize {
+                    for pattern in [0usize, 9] {
+                        for layout in 0..LAYOUTS.len() {
+                            if !e.next() {
+                                continue;
+                            }
+                            e.describe("stack-init", &format!("argc {argc} envc {envc} pattern {pattern} size {size:#x} layout {}", LAYOUTS[layout]));
+                            let viol = check(argc, envc, pattern, size, layout);
+                            e.count("transitions", (argc + envc + 3) as u64);
+                            let mut f = crate::common::Fp::new();
+                            f.u64(argc as u64);
+                            f.u64(envc as u64);
+                            f.u64(pattern as u64);
+                            f.u64(size);
+                            f.u64(layout as u64);
+                            e.state(f.0);
+                            f.u64(viol.len() as u64);
+                            e.outcome(f.0);
+                            for (k, w) in viol {
+                                e.finding(&k, || w.clone(), || json!({"argc": argc, "envc": envc, "pattern": pattern, "size": size, "layout": LAYOUTS[layout]}));
+                            }
+                        }
+                    }
+                }
+            }
+        }
         for argc in 0..=maxc {
             for envc in 0..=maxc {
                 for pattern in 0..SHAPES {
@@ -272,7 +302,7 @@ pub fn run(tier: Tier) -> i32 {
         return crate::common::finish_replay("C17", &art, &|ws| confirm_enum(&o, &g, ws));
     }
     let out = run_enum(&o, &g);
-    enum_evidence(&mut run, &out, "one case = (argc, envc in 0..=N, one of 10 rotations of the string shapes {empty, 1, 7, 8, 15, 16, 17, 300 bytes, multi-byte UTF-8 characters, 0x1001 bytes}, stack size in {0, 8, 16, 64, 0x100, 0x1000, 0x1001, 0x2000}, one of 4 layouts); the frame is read back by executing guest `pop rax` instructions and by following the pointers; areas from the structured view; states = distinct configurations; distinct_nontrivial = distinct (configuration, number of violated clauses)");
+    enum_evidence(&mut run, &out, "one case = (argc, envc in 0..=N, one of 10 rotations of the string shapes {empty, 1, 7, 8, 15, 16, 17, 300 bytes, multi-byte UTF-8 characters, 0x1001 bytes}, stack size in {0, 8, 16, 64, 0x100, 0x1000, 0x1001, 0x2000}, one of 4 layouts), plus stack sizes {1 MiB, 4 MiB - 4 KiB, 4 MiB} x argc, envc <= 2 x 2 patterns x 4 layouts; the frame is read back by executing guest `pop rax` instructions and by following the pointers; areas from the structured view; states = distinct configurations; distinct_nontrivial = distinct (configuration, number of violated clauses)");
     run.cov("max_argc_envc", json!(maxc));
     run.guard("cases", out.cases >= 5_000 || out.capped, format!("{} configurations", out.cases));
     run.assume("<= 16 bytes of alignment slack accepted for the space below RSP; contents of padding not checked");
